@@ -183,9 +183,12 @@ namespace occa {
 
       const int arrayCount = (int) arrays.size();
       for (int i = 0; i < arrayCount; ++i) {
-        primitive primSize = arrays[i].size->evaluate();
-        const int size = primSize.isNaN() ? -1 : primSize.to<int>();
-        dtype = dtype_t::tuple(dtype, size);
+        // An array without a known size (float x[]) is a pointer to its element type
+        primitive primSize = arrays[i].evaluateSize();
+        if (primSize.isNaN()) {
+          continue;
+        }
+        dtype = dtype_t::tuple(dtype, primSize.to<int>());
       }
 
       return dtype;
